@@ -20,7 +20,7 @@ import sympy as sp
 from . import field
 from .harness import Ob
 from .loader import load, rdomain, real_constants
-from .sym import RSym, Sym, unwrap, record_divisors
+from .sym import RSym, Sym, unwrap, record_divisors, Concretization
 from . import nonzero
 from spec import wgs84
 
@@ -112,9 +112,15 @@ def eq_spec(ctx, name, symbols, code, spec, domain=None, kind="a", cos_nonneg=()
     py = py or load()
     dom = full_domain(py, domain)
     t0 = time.time()
-    with rdomain(py, **(rdomain_kw or {})), record_divisors() as divs:
-        res = code({s.name: RSym(s) for s in symbols})
-        got = flat(res)
+    try:
+        with rdomain(py, **(rdomain_kw or {})), record_divisors() as divs:
+            res = code({s.name: RSym(s) for s in symbols})
+            got = flat(res)
+    except (TypeError, ValueError, Concretization) as exc:
+        if not freshness_failure(ctx, name, symbols, code, dom, exc):
+            raise
+        return None
+    freshness(ctx, name, symbols, code, dom)
     divisor_obligations(ctx, name, divs, dom, code, symbols, py, derived=derived, const_box=const_box)
     want = flat(spec({s.name: s for s in symbols}))
     if len(got) != len(want):
@@ -148,14 +154,14 @@ def eq_spec(ctx, name, symbols, code, spec, domain=None, kind="a", cos_nonneg=()
     return got
 
 
-def _close(a, b, tol, scale=1.0):
-    """|a-b| <= tol * max(|a|, |b|, 1e-3*scale); `scale` = magnitude of the whole output vector."""
+def _close(a, b, tol, scale=1.0, atol=0.0):
+    """|a-b| <= tol * max(|a|, |b|, 1e-3*scale) + atol; `scale` = magnitude of the whole output vector."""
     if math.isnan(a) or math.isnan(b):
         return False
-    return abs(a - b) <= tol * max(abs(a), abs(b), 1e-3 * scale, 1e-300)
+    return abs(a - b) <= tol * max(abs(a), abs(b), 1e-3 * scale, 1e-300) + atol
 
 
-def cross_check(ctx, name, symbols, code, got_exprs, domain, py=None, tol=1e-9, k=None):
+def cross_check(ctx, name, symbols, code, got_exprs, domain, py=None, tol=1e-9, k=None, atol=0.0):
     """Engine sanity: the symbolic result evaluated at random points must equal the
     real function run natively (float64, real scipy, compiled numba).  A mismatch
     is a CHECKER-ERROR (engine or stub wrong), never a verdict."""
@@ -177,7 +183,7 @@ def cross_check(ctx, name, symbols, code, got_exprs, domain, py=None, tol=1e-9, 
         n_ok += 1
         sc = max([abs(x) for x in sym] + [1e-300])
         for a, b in zip(native, sym):
-            if not _close(a, b, tol, sc):
+            if not _close(a, b, tol, sc, atol):
                 ctx.add(Ob(name + ".crosscheck", "guard", "error", "cpython-crosscheck", time.time() - t0,
                            "symbolic execution disagrees with native execution at %r: native %r, symbolic %r"
                            % ({s.name: pt[s] for s in symbols}, a, b)))
@@ -213,7 +219,7 @@ def taylor_coeffs(exprs, eps, order):
 def taylor_spec(ctx, name, symbols, eps, code, spec_coeffs, order, domain=None, kind="b",
                 cos_nonneg=(), cell_names=None, py=None, fd_step=1e-4, tol=2e-5, crosscheck=True,
                 orders=None, rdomain_kw=None, extra_relations=(), post=None, derived=None, const_box=None,
-                cc_eps=(-0.5, 0.5), cc_tol=1e-5):
+                cc_eps=(-0.5, 0.5), cc_tol=1e-5, cc_atol=0.0):
     """Obligations `name[cell].o<k>`: the k-th Taylor coefficient in `eps` of code(v)
     equals spec_coeffs(v)[cell][k] for k in `orders` (default 0..order).
 
@@ -222,11 +228,18 @@ def taylor_spec(ctx, name, symbols, eps, code, spec_coeffs, order, domain=None, 
     py = py or load()
     dom = full_domain(py, domain)
     orders = list(range(order + 1)) if orders is None else orders
-    with rdomain(py, **(rdomain_kw or {})), record_divisors() as divs:
-        sv = {s.name: RSym(s) for s in symbols}
-        sv[eps.name] = RSym(eps)
-        res = code(sv)
-        got = flat(res)
+    try:
+        with rdomain(py, **(rdomain_kw or {})), record_divisors() as divs:
+            sv = {s.name: RSym(s) for s in symbols}
+            sv[eps.name] = RSym(eps)
+            res = code(sv)
+            got = flat(res)
+    except (TypeError, ValueError, Concretization) as exc:
+        d2 = dict(dom)
+        d2[eps] = cc_eps
+        if not freshness_failure(ctx, name, list(symbols) + [eps], code, d2, exc):
+            raise
+        return None
     divisor_obligations(ctx, name, [d.subs(eps, 0) for d in divs], dom,
                         (lambda v: code(dict(v, **{eps.name: 0.0}))), symbols, py, derived=derived,
                         const_box=const_box)
@@ -279,7 +292,7 @@ def taylor_spec(ctx, name, symbols, eps, code, spec_coeffs, order, domain=None, 
         # cross-check the eps-dependent expression itself at small random eps
         d2 = dict(dom)
         d2[eps] = cc_eps
-        cross_check(ctx, name, list(symbols) + [eps], code, got, d2, py=py, tol=cc_tol)
+        cross_check(ctx, name, list(symbols) + [eps], code, got, d2, py=py, tol=cc_tol, atol=cc_atol)
     return coeffs
 
 
@@ -322,3 +335,64 @@ def divisor_obligations(ctx, name, divisors, domain, code, symbols, py, derived=
         ctx.from_verdict("%s.divisor[%d]" % (name, k), "d", v, native_fn)
         if ctx.obs and ctx.obs[-1].name.endswith(".divisor[%d]" % k):
             ctx.obs[-1].detail = (ctx.obs[-1].detail + " | divisor: " + str(d)[:160]).strip(" |")
+
+
+# ---------------------------------------------------------------------------
+# frame: results are fresh, no state shared between calls
+# ---------------------------------------------------------------------------
+def _arrays_of(res):
+    out = []
+    if isinstance(res, (tuple, list)):
+        for r in res:
+            out.extend(_arrays_of(r))
+    elif hasattr(res, "values") and hasattr(res, "index"):
+        out.append(np.asarray(res.values))
+    elif isinstance(res, np.ndarray):
+        out.append(res)
+    return out
+
+
+def two_call_aliasing(code, symbols, domain, rng):
+    """Native: r1 = f(p1); snapshot; r2 = f(p2).  r1 must be unchanged and share no memory with r2."""
+    p1 = _sample(symbols, domain, rng)
+    p2 = _sample(symbols, domain, rng)
+    r1 = code({s.name: p1[s] for s in symbols})
+    a1 = _arrays_of(r1)
+    snap = [a.copy() for a in a1]
+    r2 = code({s.name: p2[s] for s in symbols})
+    a2 = _arrays_of(r2)
+    changed = any(not np.array_equal(a, b, equal_nan=True) for a, b in zip(a1, snap))
+    shared = any(np.shares_memory(a, b) for a in a1 for b in a2 if a.size and b.size)
+    return dict(reproduced=bool(changed or shared), first_result_changed_by_second_call=bool(changed),
+                results_share_memory=bool(shared),
+                inputs=[{s.name: p1[s] for s in symbols}, {s.name: p2[s] for s in symbols}])
+
+
+def freshness(ctx, name, symbols, code, domain):
+    """Frame obligation (run-time part): two consecutive calls return independent objects."""
+    try:
+        r = two_call_aliasing(code, symbols, domain, ctx.rng)
+    except Exception as exc:
+        return
+    ctx.ob(name + ".frame.result_independent_of_later_calls", "f", not r["reproduced"], "native two-call aliasing test", 0.0,
+           "first result unchanged by a second call, no shared memory", cex=r if r["reproduced"] else None,
+           native=r if r["reproduced"] else None)
+
+
+def freshness_failure(ctx, name, symbols, code, domain, exc):
+    """The symbolic run could not store a symbol into an array it did not allocate during the call
+    (a float array that pre-exists the call: module / class level state or a caller's argument).
+    That is a frame violation iff it shows natively as aliasing between calls."""
+    msg = repr(exc)
+    if not isinstance(exc, Concretization) and "RSym" not in msg and "real number" not in msg and "float" not in msg:
+        return False
+    try:
+        r = two_call_aliasing(code, symbols, domain, ctx.rng)
+    except Exception:
+        return False
+    if not r["reproduced"]:
+        return False
+    ctx.add(Ob(name + ".frame.writes_only_arrays_allocated_in_the_call", "f", "failed", "symbolic-execution(frame)", 0.0,
+               "the function writes into an array that pre-exists the call (%s); natively the first result is %s by a second call"
+               % (msg[:120], "changed" if r["first_result_changed_by_second_call"] else "aliased"), cex=r, native=r))
+    return True
